@@ -171,7 +171,7 @@ def run(rep, tier, seed):
         if o["kind"] == "ok":
             rep.nontriv([c["A"], c["B"], c["md"], c["off"]])
     if tier == "thorough":
-        for n, (na, nb) in enumerate([(3000, 2500), (1500, 4000), (5000, 4999)]):
+        for n, (na, nb) in enumerate([(600, 500), (300, 800), (1000, 999)]):
             A = sorted(rng.sample(range(0, 4 * max(na, nb)), na))
             B = sorted(rng.sample(range(0, 4 * max(na, nb)), nb))
             c = {"A": A, "B": B, "md": 1, "off": rng.choice([-1, 0, 2])}
